@@ -14,7 +14,7 @@ use std::collections::{BTreeMap, BTreeSet, HashMap, HashSet};
 use pytest_language_server::FixtureDatabase;
 use std::path::{Path, PathBuf};
 
-pub const RULE: &str = "proptest-generated in-memory workspaces whose fixtures request 0-3 names from a pool of 4 (self-loops with and without a parent, several SCCs, cycles through overridden names, unknown names, the five scopes, same name at several levels with different scopes, random registration order). Cycles: every reported path must be a closed chain in the reference definition-level graph containing its anchor, every cyclic SCC must be reported at least once; scope: warning set == model set; reports identical over 4 forced recomputations. Non-trivial = the reference graph has a cyclic SCC or a dependency name is defined at >=2 levels with different scopes; distinct = distinct workspace specs.";
+pub const RULE: &str = "proptest-generated in-memory workspaces whose fixtures request 0-3 names from a pool of 4 (self-loops with and without a parent, several SCCs, cycles through overridden names, unknown names, the five scopes, same name at several levels with different scopes, random registration order). After the judgements up to two non-conftest modules that define fixtures are re-analysed with a text that defines none (reports computed before each edit), and the cycle reports must equal those of an index built from the resulting contents in the same analysis order. Cycles: every reported path must be a closed chain in the reference definition-level graph containing its anchor, every cyclic SCC must be reported at least once; scope: warning set == model set; reports identical over 4 forced recomputations. Non-trivial = the reference graph has a cyclic SCC or a dependency name is defined at >=2 levels with different scopes; distinct = distinct workspace specs.";
 pub const ASSUMPTIONS: &[&str] = &[
     "reference model of pytest lookup (model.rs) for every dependency edge",
     "workspaces where some dependency resolves to 'any of several' plugin/third-party definitions are not judged",
